@@ -163,6 +163,40 @@ fn main() {
         t.sample(run.seed, s.iter().fold(1u64, |a, x| a * 23 + *x as u64), || json!({"text": bytes_json(&text)}));
     });
 
+    // scale: long texts interleaving many files (first-appearance order and per-file
+    // line order must survive any amount of interleaving)
+    {
+        let mut t = Tally::new();
+        for nfiles in [5usize, 16, 17, 40, 129] {
+            for stride in [1usize, 3, 7] {
+                let mut text = vec![];
+                for round in 0..6 {
+                    for k in 0..nfiles {
+                        let f = (k * stride + round) % nfiles;
+                        let name = if f % 4 == 1 { format!("patch-f{}", f) } else { format!("sub{}/f{}.tgz", f % 3, f) };
+                        let line = match round {
+                            5 if f % 4 != 1 => format!("Size ({}) = {} bytes", name, 1u64 << (f % 64)),
+                            _ => format!("{} ({}) = {:x}", mc_core::model::distinfo::ALGOS[(round + f) % 6], name, f * 1000 + round),
+                        };
+                        text.extend_from_slice(line.as_bytes());
+                        text.push(b'\n');
+                        if (f + round) % 11 == 0 {
+                            text.extend_from_slice(b"# noise\n\nFOO (x) = y\n");
+                        }
+                    }
+                }
+                t.states += 1;
+                t.transitions += 1;
+                if check_text(&mut t, &text) {
+                    t.nontrivial += 1;
+                    t.outcome("text/several-files-interleaved");
+                }
+            }
+        }
+        run.bound("scale: 15 texts interleaving 5..129 files over 6 rounds with 3 strides, noise lines in between");
+        run.merge(t);
+    }
+
     // (b)
     let mut names: Vec<Vec<u8>> = vec![];
     for b in 1u16..=255 {
